@@ -57,6 +57,20 @@ Section Spec.
   | Rel_init t : In t txs -> matches_spec f0 t -> Rel fl f0 txs t
   | Rel_spend p t : Rel fl f0 txs p -> In t txs -> spends_hit fl f0 t p -> Rel fl f0 txs t.
 
+  (* Generalisation used for the stronger completeness statement: [Hot t k] singles out
+     outputs whose outpoint is guaranteed to be in the filter after any MATCHING call of
+     matchTxAndUpdate on t (hypothesis of the theorem).  [hot0] = "output k hits f0 and the
+     flag allows its class" is the instance that gives [Rel]. *)
+  Definition spends_hot (Hot : tx -> nat -> Prop) (t p : tx) : Prop :=
+    exists inp k, In inp (t_ins t) /\ i_hash inp = t_id p /\ i_index inp = N.of_nat k /\ Hot p k.
+
+  Inductive RelH (Hot : tx -> nat -> Prop) (f0 : F) (txs : list tx) : tx -> Prop :=
+  | RelH_init t : In t txs -> matches_spec f0 t -> RelH Hot f0 txs t
+  | RelH_spend p t : RelH Hot f0 txs p -> In t txs -> spends_hot Hot t p -> RelH Hot f0 txs t.
+
+  Definition hot0 (fl : uflag) (f0 : F) (t : tx) (k : nat) : Prop :=
+    exists o, nth_error (t_outs t) k = Some o /\ out_hit contains f0 o = true /\ flag_allows fl (o_class o) = true.
+
   (* no byte string that a transaction of the block presents as a txid or a data push is
      the serialisation of an outpoint of a transaction of the block (a 36-byte push equal
      to txid‖index); needed only for the exactness statement *)
@@ -70,6 +84,9 @@ Section Spec.
 End Spec.
 
 Arguments Rel {F item txid}.
+Arguments RelH {F item txid}.
+Arguments spends_hot {item txid}.
+Arguments hot0 {F item txid}.
 Arguments matches_spec {F item txid}.
 Arguments spends_hit {F item txid}.
 Arguments le_f {F item}.
